@@ -599,7 +599,11 @@ class StrategyBase(Node):
         if self._original_children_are_present:
             # if we have universe_tickers defined, limit universe to
             # those tickers
-            valid_filter = list(set(universe.columns).intersection(self._universe_tickers))
+            # (in the universe's own column order: the order of a set of
+            # strings changes with the interpreter's hash seed, and with it
+            # the order in which algos see and trade the tickers)
+            tickers = set(self._universe_tickers)
+            valid_filter = list(dict.fromkeys(c for c in universe.columns if c in tickers))
 
             funiverse = universe[valid_filter].copy()
 
